@@ -199,7 +199,7 @@ func runCase(k *mon.Case) {
 	}
 	g := chaingen.New(p, gfam, r)
 	g.MaxTx = 4
-	s, err := sim.New(k, g, node.Config{UtxoCacheMaxSize: []uint64{0, 8 << 10, 1 << 30}[r.Intn(3)], SigCache: r.Bool()})
+	s, err := sim.New(k, g, node.Config{UtxoCacheMaxSize: []uint64{0, 8 << 10, 1 << 25}[r.Intn(3)], SigCache: r.Bool()})
 	if err != nil {
 		k.Failf("harness:open", "cannot open node: %v", err)
 		return
